@@ -271,7 +271,8 @@ struct PullAlgo {
     Bag matched;
     Bag otherMatched;
     uint64_t size  = graph.size();
-    uint64_t delta = graph.size() / 25;
+    // at least one new node per round (graphs with fewer than 25 nodes)
+    uint64_t delta = std::max<uint64_t>(1, graph.size() / 25);
 
     Graph::iterator ii = graph.begin();
     Graph::iterator ei = graph.begin();
